@@ -645,7 +645,7 @@ def run(ctx):
                 continue
             thetas = [T for _, _, T in bases(n, k, p, base, n_theta)]
             for obs in obs_list:
-                for lo, hi in _chunks(total, 400 if q else 1500):
+                for lo, hi in _chunks(total, 150 if q else 1000):
                     blocks.append({'kind': 'blk-grid', 'n': n, 'k': k, 'p': p, 'vals': vals, 'obs': obs[:k],
                                    'thetas': thetas, 'variants': V, 'lo': lo, 'hi': hi})
         if k == 1 and (not q or n == 4):    # integer dtype inputs (e.g. a randint prior, a counting summary)
@@ -677,25 +677,31 @@ def run(ctx):
                     cells = n * (k + p)
                     symbols = ['nan', 'inf'] if q else ['nan', 'inf', '-inf']
                     total = sum(1 for _ in placements(cells, symbols, 2))
-                    for lo, hi in _chunks(total, 300 if q else 1200):
+                    for lo, hi in _chunks(total, 150 if q else 800):
                         blocks_nf.append({'kind': 'blk-place', 'S': S, 'T': T, 'obs': obs, 'symbols': symbols,
                                           'max': 2, 'variants': V, 'lo': lo, 'hi': hi})
                     if (n <= 4 and not q) or (q and n == 3 and k == 1 and bi == 0):
                         total = sum(1 for _ in placements(cells, ['nan', 'inf'], 3))
                         skip = sum(1 for _ in placements(cells, ['nan', 'inf'], 2))
-                        for lo, hi in _chunks(total - skip, 1200):
+                        for lo, hi in _chunks(total - skip, 150 if q else 800):
                             blocks_nf.append({'kind': 'blk-place', 'S': S, 'T': T, 'obs': obs, 'symbols': ['nan', 'inf'],
                                               'max': 3, 'variants': V, 'lo': skip + lo, 'hi': skip + hi})
                     # affine maps
                     if bi < (1 if q else 3):
                         maps = (MAPS1 if q else MAPS1_T) if k == 1 else (MAPS2 if q else MAPS2_T)
                         va = [{'maps': [list(mp) for mp in maps]}]
-                        blocks_af.append({'kind': 'blk-place', 'S': S, 'T': T, 'obs': obs, 'symbols': ['nan', 'inf'],
-                                          'max': 1 if q or n > 4 else 2, 'variants': va})
+                        mx = 1 if q or n > 4 else 2
+                        total = sum(1 for _ in placements(cells, ['nan', 'inf'], mx))
+                        for lo, hi in _chunks(total, 15 if q else 40):
+                            blocks_af.append({'kind': 'blk-place', 'S': S, 'T': T, 'obs': obs, 'symbols': ['nan', 'inf'],
+                                              'max': mx, 'variants': va, 'lo': lo, 'hi': hi})
                     # names / api variants
                     if bi < (1 if q else 2):
-                        blocks_nm.append({'kind': 'blk-place', 'S': S, 'T': T, 'obs': obs, 'symbols': ['nan', 'inf'],
-                                          'max': 1 if q or n > 4 else 2, 'variants': _name_variants(k, p, q)})
+                        mx = 1 if q or n > 4 else 2
+                        total = sum(1 for _ in placements(cells, ['nan', 'inf'], mx))
+                        for lo, hi in _chunks(total, 20 if q else 50):
+                            blocks_nm.append({'kind': 'blk-place', 'S': S, 'T': T, 'obs': obs, 'symbols': ['nan', 'inf'],
+                                              'max': mx, 'variants': _name_variants(k, p, q), 'lo': lo, 'hi': hi})
                     if bi == 0 and n in ((3, 5) if q else (3, 4, 5)):
                         refit_pool.append({'kind': 'adj', 'S': S, 'T': T, 'obs': obs})
                         if p == 2:
@@ -736,7 +742,7 @@ def run(ctx):
             total = 1
             for c in counts:
                 total *= c
-            step = max(1, counts[0] * 4000 // total)
+            step = max(1, counts[0] * 1200 // total)
             for lo, hi in _chunks(counts[0], step):
                 blocks.append({'kind': 'blk-cmp', 'sizes': list(sizes), 'dvals': dv, 'nsims': nsims, 'wvals': wv,
                                'wmode': wmode, 'lo': lo, 'hi': hi})
